@@ -316,7 +316,7 @@ static void lg_check_strings_at(const uint8_t *p, size_t len, size_t off, ares_b
       ares_free(bin);
     }
     LG_LEDGER_END("parse_dns_binstr", p, len);
-    if (vh_chance(prm, 1, 4)) {
+    if (vh_chance(prm, 1, 4) && lg_skip_mode_calls) {
       /* skip mode (bin == NULL), as used by ares_expand_string(..., s = NULL, ...) */
       int  st2;
       long el = -777;
@@ -977,6 +977,7 @@ static void lg_check_addrinfo(const uint8_t *data, size_t len, vh_rng_t *prm)
 }
 
 /* ---------------------------------------------------------------- the body */
+static int      lg_lean  = 0;    /* 1: one call per legacy function, fewer variants (libFuzzer target) */
 static unsigned lg_parts = 0xff; /* --opt parts=<mask>: 1 parse, 2 legacy, 4 offsets, 8 hexdump/split, 16 addrinfo */
 
 static void lg_total_body(const uint8_t *data, size_t len, vh_rng_t *prm)
@@ -989,7 +990,7 @@ static void lg_total_body(const uint8_t *data, size_t len, vh_rng_t *prm)
   /* 1. record parser: drawn flag combination, and flags 0 (what the legacy wrappers use) */
   if (lg_parts & 1) {
     lg_check_parse(data, len, flags);
-    if (flags != 0 && vh_chance(prm, 1, 2)) {
+    if (flags != 0 && vh_chance(prm, 1, 2) && !lg_lean) {
       lg_check_parse(data, len, 0);
     }
     if (len <= 600 && vh_chance(prm, 1, 16)) {
@@ -1007,7 +1008,7 @@ static void lg_total_body(const uint8_t *data, size_t len, vh_rng_t *prm)
     }
     lg_legacy_opts_draw(&o, prm);
     lg_check_legacy_call(f, data, len, (int)len, &o);
-    if (f == LG_F_A || f == LG_F_AAAA || f == LG_F_PTR) {
+    if ((f == LG_F_A || f == LG_F_AAAA || f == LG_F_PTR) && !lg_lean) {
       lg_legacy_opts_draw(&o, prm);
       lg_check_legacy_call(f, data, len, (int)len, &o);
     }
@@ -1034,7 +1035,7 @@ static void lg_total_body(const uint8_t *data, size_t len, vh_rng_t *prm)
   }
   /* int alen variants the legacy prototypes allow: negative, zero, shorter than the block */
   if (lg_parts & 2) {
-    int n = 3;
+    int n = lg_lean ? 1 : 3;
     while (n-- > 0) {
       uint32_t k = vh_below(prm, 5);
       int      alen;
